@@ -117,6 +117,21 @@ def main(argv):
         except Exception:
             pass
         state['active'] = False
+    # a bytes source: the PEP 263 cookie is honoured by the parser; which modules get imported must not depend on it
+    python_minifier.minify(b'# coding: utf-8\nx = 1\n')
+    for cookie in ('utf-8', 'latin-1', 'ascii', 'idna', 'cp1140', 'bz2_codec', 'zlib_codec', 'punycode', 'canary_codec_that_does_not_exist'):
+        for src in (b'# coding: ' + cookie.encode() + b'\nx = 1\n', b'#!/usr/bin/python\n# vim: set fileencoding=' + cookie.encode() + b' :\nx = 1\n'):
+            cases += 1
+            before = set(sys.modules)
+            try:
+                python_minifier.minify(src)
+            except Exception:
+                pass
+            new = sorted(m for m in set(sys.modules) - before if not m.startswith('python_minifier'))
+            if new:
+                violations.append({'case': repr(src)[:80], 'mechanism': 'coding-cookie-imports-codec',
+                                   'failure': 'minify(bytes) imported %s, selected by the coding cookie of the input' % ', '.join(new)})
+    violations.sort(key=lambda f: bool(f.get('mechanism')))
     print(json.dumps({'cases': cases, 'failures': violations[:40], 'n_failures': len(violations)}))
 
 
